@@ -119,6 +119,11 @@ impl SessionEngine {
     pub fn create_session(&self) -> SessionHandle {
         let session_id = Uuid::new_v4().to_string();
         let (sender, _receiver) = broadcast::channel(EVENT_CHANNEL_CAPACITY);
+        #[cfg(rip_verif)]
+        let sender = match crate::verif::event_channel_capacity_override() {
+            Some(capacity) => broadcast::channel(capacity).0,
+            None => sender,
+        };
         SessionHandle {
             session_id,
             sender,
